@@ -7,6 +7,7 @@ import (
 	"github.com/dgraph-io/badger/v3"
 
 	"github.com/glebziz/fs_db/internal/model/transactor"
+	"github.com/glebziz/fs_db/internal/verifhook"
 )
 
 type Item struct {
@@ -44,12 +45,25 @@ func New(dbPath string) (*Manager, error) {
 }
 
 func (m *Manager) Set(key []byte, val []byte) error {
+	if verifhook.Enabled {
+		if err := verifhook.Point("badger.set", string(key)); err != nil {
+			return err
+		}
+		defer verifhook.Point("badger.set.done", string(key)) //nolint:errcheck
+	}
+
 	return m.db.Update(func(txn *badger.Txn) error {
 		return txn.Set(key, val)
 	})
 }
 
 func (m *Manager) GetAll(prefix []byte) (items []Item, err error) {
+	if verifhook.Enabled {
+		if err = verifhook.Point("badger.getall", string(prefix)); err != nil {
+			return nil, err
+		}
+	}
+
 	return items, m.db.View(func(txn *badger.Txn) error {
 		items, err = transaction{txn}.GetAll(prefix)
 		if err != nil {
@@ -61,6 +75,12 @@ func (m *Manager) GetAll(prefix []byte) (items []Item, err error) {
 }
 
 func (m *Manager) Get(key []byte) (data []byte, err error) {
+	if verifhook.Enabled {
+		if err = verifhook.Point("badger.get", string(key)); err != nil {
+			return nil, err
+		}
+	}
+
 	return data, m.db.View(func(txn *badger.Txn) error {
 		data, err = transaction{txn}.Get(key)
 		if err != nil {
@@ -72,6 +92,13 @@ func (m *Manager) Get(key []byte) (data []byte, err error) {
 }
 
 func (m *Manager) Delete(key []byte) error {
+	if verifhook.Enabled {
+		if err := verifhook.Point("badger.delete", string(key)); err != nil {
+			return err
+		}
+		defer verifhook.Point("badger.delete.done", string(key)) //nolint:errcheck
+	}
+
 	return m.db.Update(func(txn *badger.Txn) error {
 		return txn.Delete(key)
 	})
@@ -94,6 +121,13 @@ func (m *Manager) RunTransaction(ctx context.Context, fn transactor.TransactionF
 	querier, ok := ctx.Value(ctxTxn{}).(QueryManager)
 	if ok && querier != nil {
 		return fn(ctx)
+	}
+
+	if verifhook.Enabled {
+		if err := verifhook.Point("badger.txn", ""); err != nil {
+			return err
+		}
+		defer verifhook.Point("badger.txn.done", "") //nolint:errcheck
 	}
 
 	return m.db.Update(func(txn *badger.Txn) error {
